@@ -1240,8 +1240,27 @@ namespace awkward {
       ContentPtrVec outcontents;
       for (int64_t i = 0;  i < numcontents();  i++) {
         ContentPtr projection = project(i);
-        outcontents.push_back(
-          projection.get()->getitem_next(head, tail, advanced));
+        if (advanced.is_empty_advanced()  ||  advanced.length() == 0) {
+          outcontents.push_back(
+            projection.get()->getitem_next(head, tail, advanced));
+        }
+        else {
+          // the pairing with an earlier index array follows the entries
+          // that belong to this content
+          Index64 nextadvanced(projection.get()->length());
+          int64_t k = 0;
+          for (int64_t j = 0;
+               j < tags_.length()  &&  j < advanced.length()  &&
+               k < nextadvanced.length();
+               j++) {
+            if ((int64_t)tags_.getitem_at_nowrap(j) == i) {
+              nextadvanced.setitem_at_nowrap(k, advanced.getitem_at_nowrap(j));
+              k++;
+            }
+          }
+          outcontents.push_back(
+            projection.get()->getitem_next(head, tail, nextadvanced));
+        }
       }
       IndexOf<I> outindex = regular_index(tags_);
       UnionArrayOf<T, I> out(identities_,
